@@ -1665,6 +1665,130 @@ def content_edge_cases():
             yield "content-edge:%d%s" % (k, "+pre" if pre else ""), W.simple_file(objs, 1)[0]
 
 
+def annot_page_cases():
+    """a page with /Annots [A] (object 4) whose /P points at every object of the fragment: its own page (the one legal value
+    besides absence, Table 164), another page, the /Pages root, an inner /Pages node, the catalog, the annotation itself, an
+    integer, an array, a stream, null, a chain of references, a loop of references, an undefined object; /P absent; /P direct.
+    Objects: 1 catalog, 2 pages root (kids 3, 6), 3 page, 4 annotation, 5 integer, 6 inner pages node, 7 its page, 8 array,
+    9 stream, 10 null, 11 -> 12 -> 3 (references), 13 <-> 14 (loop).  (tag, bytes)"""
+    def doc(p, annots=None):
+        a = {"Type": N("Annot"), "Subtype": N("Text"), "Rect": [0, 0, 10, 10], "Contents": b"n"}
+        if p is not None:
+            a["P"] = p
+        extra = {4: a, 5: 42, 6: {"Type": N("Pages"), "Parent": Ref(2), "Kids": [Ref(7)], "Count": 1},
+                 7: {"Type": N("Page"), "Parent": Ref(6), "MediaBox": [0, 0, 100, 100], "Resources": {}, "Annots": [Ref(4)]},
+                 8: [Ref(3)], 9: Stream({"Type": N("Page")}, b"q Q"), 10: None, 11: Ref(12), 12: Ref(3), 13: Ref(14), 14: Ref(13)}
+        return _r(_mini(extra, page_extra={"Annots": annots if annots is not None else [Ref(4)]}, pages_extra={"Kids": [Ref(3), Ref(6)], "Count": 2}))
+    targets = [("own-page", Ref(3)), ("other-page", Ref(7)), ("pages-root", Ref(2)), ("pages-inner", Ref(6)), ("catalog", Ref(1)),
+               ("annot-itself", Ref(4)), ("integer", Ref(5)), ("array", Ref(8)), ("stream", Ref(9)), ("null-object", Ref(10)),
+               ("ref-chain-to-page", Ref(11)), ("ref-loop", Ref(13)), ("undefined", Ref(99)), ("absent", None),
+               ("direct-integer", 7), ("direct-dict", {"Type": N("Pages"), "Kids": [], "Count": 0}), ("direct-null", None)]
+    for name, p in targets:
+        if name == "direct-null":
+            continue
+        yield "annot-p:" + name, doc(p)
+    # the annotation dictionary written directly inside /Annots, /P at its own page and at the tree
+    for name, p in (("inline-own-page", Ref(3)), ("inline-pages-root", Ref(2))):
+        yield "annot-p:" + name, doc(None, annots=[{"Type": N("Annot"), "Subtype": N("Text"), "Rect": [0, 0, 10, 10], "P": p}])
+
+
+def big_instances():
+    """well-formed one-page files in which ONE typed object is big (hundreds of entries): the heap-size estimates of the typed
+    values (DataSize impls: the weights of the object cache) run only when such a value enters a cache, and their arithmetic only
+    shows with sizes beyond a handful.  Colour spaces with large tint transforms / colorant lists / attributes / palettes — as a
+    page resource (indirect /Resources) and as an image's /ColorSpace — and one big instance of the other kinds the walker loads.
+    (tag, bytes)"""
+    S = lambda d, data=b"": Stream(d, data)
+    k = 400
+    f2 = {"FunctionType": 2, "Domain": [0, 1], "C0": [0] * k, "C1": [1] * k, "N": 1}
+    f2r = dict(f2, Range=[0, 1] * k)
+    f2one = {"FunctionType": 2, "Domain": [0, 1], "C0": [0] * 4, "C1": [1] * 4, "N": 1}
+    prog = b"{ " + b"dup 0.5 mul exch pop " * 300 + b"dup dup dup }"
+    f4 = S({"FunctionType": 4, "Domain": [0, 1], "Range": [0, 1] * 4}, prog)
+    f0 = S({"FunctionType": 0, "Domain": [0, 1], "Range": [0, 1] * 4, "Size": [4096], "BitsPerSample": 8}, bytes((7 * i) % 256 for i in range(4096 * 4)))
+    f0m = S({"FunctionType": 0, "Domain": [0, 1] * 3, "Range": [0, 1] * 4, "Size": [16, 16, 16], "BitsPerSample": 8}, bytes((5 * i) % 256 for i in range(16 ** 3 * 4)))
+    f3 = {"FunctionType": 3, "Domain": [0, 1], "Functions": [dict(f2one) for _ in range(200)], "Bounds": [(i + 1) / 200 for i in range(199)], "Encode": [0, 1] * 200}
+    names = [N("Ink%d" % i) for i in range(300)]
+    attrs = {"Subtype": N("NChannel"), "Colorants": {"Ink%d" % i: [N("Separation"), N("Ink%d" % i), N("DeviceGray"), {"FunctionType": 2, "Domain": [0, 1], "N": 1}] for i in range(120)},
+             "Process": {"ColorSpace": N("DeviceCMYK"), "Components": [N("Cyan"), N("Magenta"), N("Yellow"), N("Black")]}}
+    spaces = []
+    for tag, fn in (("fn2-400", f2), ("fn2-400-range", f2r), ("fn4-long", f4), ("fn0-4096", f0), ("fn0-16x16x16", f0m), ("fn3-200", f3)):
+        m = 3 if tag == "fn0-16x16x16" else 1
+        spaces.append(("devicen-" + tag, [N("DeviceN"), [N("A"), N("B"), N("C")][:m], N("DeviceCMYK"), Ref(5)], fn))
+        if m == 1:
+            spaces.append(("separation-" + tag, [N("Separation"), N("Spot"), N("DeviceCMYK"), Ref(5)], fn))
+    spaces.append(("devicen-names-300", [N("DeviceN"), names, N("DeviceCMYK"), Ref(5)], f2one))
+    spaces.append(("devicen-attrs-120", [N("DeviceN"), [N("A")], N("DeviceCMYK"), Ref(5), attrs], f2one))
+    spaces.append(("devicen-all-big", [N("DeviceN"), names, N("DeviceCMYK"), Ref(5), attrs], f2r))
+    spaces.append(("indexed-string-768", [N("Indexed"), N("DeviceRGB"), 255, bytes(i % 256 for i in range(768))], None))
+    spaces.append(("indexed-stream-768", [N("Indexed"), N("DeviceRGB"), 255, Ref(5)], S({}, bytes(i % 251 for i in range(768)))))
+    spaces.append(("indexed-on-devicen", [N("Indexed"), [N("DeviceN"), [N("A")], N("DeviceGray"), Ref(5)], 255, bytes(256)], f2))
+    spaces.append(("calrgb-big-dict", [N("CalRGB"), dict({"WhitePoint": [0.95, 1, 1.09]}, **{"K%d" % i: [i] * 8 for i in range(150)})], None))
+    spaces.append(("other-big-array", [N("Lab")] + [{"WhitePoint": [0.95, 1, 1.09], "Range": [-100, 100] * 100}], None))
+    for tag, cs, fn in spaces:
+        objs = {4: cs}
+        if fn is not None:
+            objs[5] = fn
+        # as a resource of the page, the resource dictionary indirect (weighed by the cache on its own) …
+        o1 = dict(objs)
+        o1[6] = {"ColorSpace": {"CS0": Ref(4)}}
+        o1[7] = S({}, b"/CS0 cs 0.5 scn 0 0 5 5 re f")
+        yield "big:cs-resource:" + tag, _r(_mini(o1, res=Ref(6), page_extra={"Contents": Ref(7)}))
+        # … and as the colour space of an image XObject
+        o2 = dict(objs)
+        o2[6] = S({"Type": N("XObject"), "Subtype": N("Image"), "Width": 2, "Height": 2, "BitsPerComponent": 8, "ColorSpace": Ref(4)}, bytes(16))
+        o2[7] = S({}, b"q /Im0 Do Q")
+        yield "big:cs-image:" + tag, _r(_mini(o2, res={"XObject": {"Im0": Ref(6)}}, page_extra={"Contents": Ref(7)}))
+    # ---- one big instance of the other typed kinds
+    w256 = [500 + i for i in range(256)]
+    diffs = [0] + [N("g%d" % i) for i in range(256)]
+    font = {"Type": N("Font"), "Subtype": N("TrueType"), "BaseFont": N("Big"), "FirstChar": 0, "LastChar": 255, "Widths": w256,
+            "Encoding": {"Type": N("Encoding"), "Differences": diffs},
+            "FontDescriptor": {"Type": N("FontDescriptor"), "FontName": N("Big"), "Flags": 32, "FontBBox": [0, 0, 1000, 1000], "ItalicAngle": 0, "Ascent": 800,
+                               "Descent": -200, "CapHeight": 700, "StemV": 80}}
+    yield "big:font-widths-differences", _r(_mini({4: font, 5: S({}, b"BT /F0 9 Tf (x) Tj ET")}, res={"Font": {"F0": Ref(4)}}, page_extra={"Contents": Ref(5)}))
+    wcid = []
+    for i in range(200):
+        wcid += [i * 3, [500, 600, 700]]
+    t0 = {"Type": N("Font"), "Subtype": N("Type0"), "BaseFont": N("BigCID"), "Encoding": N("Identity-H"), "DescendantFonts": [Ref(5)],
+          "ToUnicode": Ref(6)}
+    cid = {"Type": N("Font"), "Subtype": N("CIDFontType2"), "BaseFont": N("BigCID"), "CIDSystemInfo": {"Registry": b"Adobe", "Ordering": b"Identity", "Supplement": 0},
+           "DW": 1000, "W": wcid, "FontDescriptor": {"Type": N("FontDescriptor"), "FontName": N("BigCID"), "Flags": 4, "FontBBox": [0, 0, 1000, 1000],
+                                                     "ItalicAngle": 0, "Ascent": 800, "Descent": -200, "CapHeight": 700, "StemV": 80}}
+    tou = b"/CIDInit /ProcSet findresource begin 12 dict begin begincmap 1 begincodespacerange <0000> <FFFF> endcodespacerange\n" + \
+          b"".join(b"100 beginbfchar\n" + b"".join(b"<%04X> <%04X>\n" % (j * 100 + i, 0x4E00 + i) for i in range(100)) + b"endbfchar\n" for j in range(4)) + b"endcmap end end"
+    yield "big:font-type0-w-tounicode", _r(_mini({4: t0, 5: cid, 6: S({}, tou), 7: S({}, b"BT /F0 9 Tf <0001> Tj ET")}, res={"Font": {"F0": Ref(4)}}, page_extra={"Contents": Ref(7)}))
+    gs = {"Type": N("ExtGState"), "LW": 1, "D": [[1, 2] * 200, 0], "Font": [Ref(5), 9], "BM": [N("Multiply")] * 50,
+          "SMask": {"Type": N("Mask"), "S": N("Luminosity"), "G": Ref(6), "BC": [0] * 200}}
+    yield "big:extgstate", _r(_mini({4: gs, 5: dict(font), 6: S({"Type": N("XObject"), "Subtype": N("Form"), "BBox": [0, 0, 1, 1]}, b"q Q"), 7: S({}, b"/G0 gs")},
+                                   res={"ExtGState": {"G0": Ref(4)}}, page_extra={"Contents": Ref(7)}))
+    annots = {10 + i: {"Type": N("Annot"), "Subtype": N("Text"), "Rect": [0, 0, 10, 10], "P": Ref(3), "Contents": b"note " * 60,
+                       "Border": [0, 0, 1, [3] * 40], "C": [0.5] * 3} for i in range(150)}
+    yield "big:annots-150", _r(_mini(annots, page_extra={"Annots": [Ref(10 + i) for i in range(150)]}))
+    content = b"q " + b"1 0 0 1 1 1 cm 0 0 m 5 5 l S [1 2 3] 0 d (text) pop " * 0 + b"0 0 m 5 5 l S /Span << /MCID 1 /A [1 2 3 4 5 6 7 8] >> BDC EMC " * 400 + b"Q"
+    yield "big:content-ops", _r(_mini({4: S({}, content)}, page_extra={"Contents": Ref(4)}))
+    leaf = {"Names": sum(([b"name%04d" % i, [Ref(3), N("Fit")]] for i in range(300)), [])}
+    labels = {"Nums": sum(([i, {"S": N("D"), "St": i, "P": b"prefix-%d-" % i}] for i in range(300)), [])}
+    yield "big:nametree-pagelabels", _r(_mini({4: leaf, 5: labels}, cat_extra={"Names": {"Dests": Ref(4)}, "PageLabels": Ref(5)}))
+    outl = {4: {"Type": N("Outlines"), "First": Ref(10), "Last": Ref(10 + 119), "Count": 120}}
+    for i in range(120):
+        it = {"Title": b"Item %d " % i * 10, "Parent": Ref(4), "Dest": [Ref(3), N("XYZ"), 0, 0, 0], "C": [0, 0, 1], "F": 1}
+        if i > 0:
+            it["Prev"] = Ref(10 + i - 1)
+        if i < 119:
+            it["Next"] = Ref(10 + i + 1)
+        outl[10 + i] = it
+    yield "big:outlines-120", _r(_mini(outl, cat_extra={"Outlines": Ref(4)}))
+    form = S({"Type": N("XObject"), "Subtype": N("Form"), "BBox": [0, 0, 10, 10], "Matrix": [1, 0, 0, 1, 0, 0],
+              "Resources": {"ExtGState": {"G%d" % i: {"Type": N("ExtGState"), "LW": i} for i in range(150)}, "ColorSpace": {"C%d" % i: [N("Indexed"), N("DeviceRGB"), 1, bytes(6)] for i in range(100)}},
+              "PieceInfo": {"App%d" % i: {"LastModified": b"D:20200101", "Private": [i] * 20} for i in range(60)}}, b"q Q " * 500)
+    yield "big:form-resources", _r(_mini({4: form, 5: S({}, b"q /X0 Do Q")}, res={"XObject": {"X0": Ref(4)}}, page_extra={"Contents": Ref(5)}))
+    pat = S({"Type": N("Pattern"), "PatternType": 1, "PaintType": 1, "TilingType": 1, "BBox": [0, 0, 5, 5], "XStep": 5, "YStep": 5, "Resources": Ref(5)}, b"0 0 m 1 1 l S " * 400)
+    yield "big:pattern-ops", _r(_mini({4: pat, 5: {}, 6: S({}, b"/Pattern cs /P0 scn 0 0 5 5 re f")}, res={"Pattern": {"P0": Ref(4)}}, page_extra={"Contents": Ref(6)}))
+    shading = {"ShadingType": 2, "ColorSpace": [N("DeviceN"), names[:50], N("DeviceCMYK"), Ref(5)], "Coords": [0, 0, 1, 1], "Function": Ref(5), "Extend": [True, True]}
+    yield "big:shading-devicen", _r(_mini({4: shading, 5: dict(f2r), 6: S({}, b"/Sh0 sh")}, res={"Shading": {"Sh0": Ref(4)}}, page_extra={"Contents": Ref(6)}))
+
+
 def planted(rng, tier="quick"):
     """iterator of (tag, file bytes): syntactically valid files with a correct cross-reference section whose object graph is hostile"""
     styles = ("table",) if tier == "quick" else ("table", "xstream", "objstm", "incr")
